@@ -110,6 +110,15 @@ def _keys_of_thresholds(t: Any) -> bool:
     return False
 
 
+def _empty_collection(t: Any) -> bool:
+    """an empty display / constructor call: what `dict(x) if x else {}` is on the path where no thresholds were given"""
+    if not isinstance(t, tuple) or not t:
+        return False
+    if t[0] in ("dict", "set", "tuple", "list") and len(t) > 1 and not t[1]:
+        return True
+    return t[0] == "pure" and t[1] in ("dict", "set", "frozenset", "new dict", "new set", "new frozenset") and not t[2]
+
+
 def check_note_failure(rep: Report, prog: Program) -> None:
     rep.rule("R6.2", "_note_failure: prune(B, now) then B.append(now) precede every len(B) that feeds the result; result == len(class bucket) >= class threshold (when one exists) or len(_failures) >= _failure_threshold; _prune/_clear_failures shapes; container ownership")
     fi = prog.func(f"{CB}._note_failure")
@@ -338,7 +347,7 @@ def check_constructor(rep: Report, prog: Program) -> None:
                 got = frozenset(x[2] if isinstance(x, tuple) and x and x[0] == "enum" else x for x in got)
             if got != want[cname]:
                 problem = f"with trip_on={cname} the counted classes start as {sorted(got) if got is not None else show(st.get('_trip_on'))}, expected {sorted(want[cname])}"
-            elif not any(e.recv == st["_trip_on"] and e.args and _keys_of_thresholds(e.args[0]) for e in ups):
+            elif not any(e.recv == st["_trip_on"] and e.args and (_keys_of_thresholds(e.args[0]) or (_empty_collection(e.args[0]) and any(a == ("param", "class_thresholds") and pol is False for a, pol, _ in p.conds))) for e in ups):
                 problem = "the classes that have a class threshold are not added to the counted classes (trip_on.update(class_thresholds.keys()))"
             else:
                 for k, src in (("_failure_threshold", "failure_threshold"), ("_window_s", "window_s"), ("_recovery_timeout_s", "recovery_timeout_s"), ("_clock", "clock")):
